@@ -22,19 +22,42 @@ def _reads_pos(cls, node, depth=0, seen=None):
     return False
 
 
+def _presence_tested(test):
+    """attribute names of self whose presence (None / missing / falsy) the condition tests"""
+    out = set()
+    for x in ast.walk(test):
+        if isinstance(x, ast.Compare) and len(x.ops) == 1 and isinstance(x.ops[0], (ast.Is, ast.IsNot, ast.Eq, ast.NotEq)) and \
+           isinstance(x.comparators[0], ast.Constant) and x.comparators[0].value is None:
+            l = x.left
+            if is_self_attr(l): out.add(l.attr)
+            if isinstance(l, ast.Call) and isinstance(l.func, ast.Name) and l.func.id == 'getattr' and len(l.args) >= 2 and \
+               isinstance(l.args[1], ast.Constant): out.add(l.args[1].value)
+        if isinstance(x, ast.Call) and isinstance(x.func, ast.Name) and x.func.id == 'hasattr' and len(x.args) == 2 and \
+           isinstance(x.args[1], ast.Constant): out.add(x.args[1].value)
+        if isinstance(x, ast.UnaryOp) and isinstance(x.op, ast.Not) and is_self_attr(x.operand): out.add(x.operand.attr)
+    return out
+
+
 def lazy_caches(classes):
     """[(cls, attr, method FuncInfo, If node)] for `if self.A is None: self.A = ...` whose computation reads positions"""
     out = []
     for c in classes:
         for m in c.methods.values():
             for n in ast.walk(m.node):
-                if isinstance(n, ast.If) and isinstance(n.test, ast.Compare) and len(n.test.ops) == 1 and isinstance(n.test.ops[0], ast.Is) \
-                   and isinstance(n.test.comparators[0], ast.Constant) and n.test.comparators[0].value is None and is_self_attr(n.test.left):
-                    a = n.test.left.attr
-                    sets = [s for st in n.body for s in ast.walk(st) if isinstance(s, ast.Assign) and
-                            any(is_self_attr(t, a) for t in s.targets)]
-                    if sets and any(_reads_pos(c, s.value) for s in sets):
-                        out.append((c, a, m, n))
+                # a *presence test* of attribute A (self.A is None / not self.A / getattr(self, 'A', None) is None /
+                # not hasattr(self, 'A') / try: self.A except AttributeError) whose "absent" branch assigns self.A from node positions
+                if m.name == '__init__' or not isinstance(n, (ast.If, ast.Try)): continue
+                if isinstance(n, ast.If):
+                    mentioned = _presence_tested(n.test)
+                    region = n.body + n.orelse
+                else:
+                    if not any(h.type is None or 'AttributeError' in ast.unparse(h.type) for h in n.handlers): continue
+                    mentioned = set(x.attr for st in n.body for x in ast.walk(st) if is_self_attr(x))
+                    region = [st for h in n.handlers for st in h.body]
+                for s in [s for st in region for s in ast.walk(st) if isinstance(s, ast.Assign)]:
+                    for t in s.targets:
+                        if is_self_attr(t) and t.attr in mentioned and _reads_pos(c, s.value) and (c, t.attr, m) not in [(x[0], x[1], x[2]) for x in out]:
+                            out.append((c, t.attr, m, n))
     return out
 
 
